@@ -322,7 +322,7 @@ Verdict runC11(const Case &cs) {
   for (auto &codes : cs.inputs) {
     for (int cfg = 0; cfg < 2; cfg++) {
       Conf cf; cf.la = cfg ? 2 : 1; cf.one = cfg ? 0 : 1; cf.cost = cfg; cf.rec = 1;
-      yaep_verif.rec_limit = 20000;
+      yaep_verif.rec_limit = REC_LIMIT;
       Outcome a = runParse(*bt, codes, cf);
       Outcome b = runParse(*bc, codes, cf);
       v.parses += 2;
